@@ -85,6 +85,8 @@ func (server *SugarDB) Flush(database int) {
 
 	if database == -1 {
 		for db, _ := range server.store {
+			// Deduct the memory accounted for the flushed keys.
+			server.releaseDatabaseMemory(db)
 			// Clear db store.
 			clear(server.store[db])
 			// Clear db volatile key tracker.
@@ -101,6 +103,8 @@ func (server *SugarDB) Flush(database int) {
 		return
 	}
 
+	// Deduct the memory accounted for the flushed keys.
+	server.releaseDatabaseMemory(database)
 	// Clear db store.
 	clear(server.store[database])
 	// Clear db volatile key tracker.
@@ -113,6 +117,20 @@ func (server *SugarDB) Flush(database int) {
 	server.lruCache.cache[database].Mutex.Lock()
 	server.lruCache.cache[database].Flush()
 	server.lruCache.cache[database].Mutex.Unlock()
+}
+
+// releaseDatabaseMemory deducts the memory accounted for all the keys of the given database.
+// The caller must hold the store lock.
+func (server *SugarDB) releaseDatabaseMemory(database int) {
+	for key, data := range server.store[database] {
+		mem, err := data.GetMem()
+		if err != nil {
+			continue
+		}
+		server.memUsed -= mem
+		server.memUsed -= int64(unsafe.Sizeof(key))
+		server.memUsed -= int64(len(key))
+	}
 }
 
 func (server *SugarDB) keysExist(ctx context.Context, keys []string) map[string]bool {
@@ -221,9 +239,17 @@ func (server *SugarDB) setValues(ctx context.Context, entries map[string]interfa
 
 	for key, value := range entries {
 		expireAt := time.Time{}
-		if old, ok := server.store[database][key]; ok && !isExpired(old, server.clock.Now()) {
-			// Keep the deadline of a live key; a deadline that has already passed is never inherited.
-			expireAt = old.ExpireAt
+		if old, ok := server.store[database][key]; ok {
+			if !isExpired(old, server.clock.Now()) {
+				// Keep the deadline of a live key; a deadline that has already passed is never inherited.
+				expireAt = old.ExpireAt
+			}
+			// The entry is being replaced: deduct what was accounted for the old one.
+			if oldMem, err := old.GetMem(); err == nil {
+				server.memUsed -= oldMem
+				server.memUsed -= int64(unsafe.Sizeof(key))
+				server.memUsed -= int64(len(key))
+			}
 		}
 		server.store[database][key] = internal.KeyData{
 			Value:    value,
